@@ -2,15 +2,15 @@
 """Regenerates /verif/MANIFEST.json (kept valid at all times)."""
 import json, sys
 claimed = {
- "C01": ("round-trip oracle over generated enum values (proptest) + small-scope enumeration", "§4 C01"),
+ "C01": ("round-trip oracle over generated enum values (proptest) + small-scope, constructor-inside-constructor and Han keyword-fragment enumerations", "§4 C01"),
  "C02": ("round-trip oracle over generated vocabulary-consistent lexical values (proptest) + enumeration of item combinations", "§4 C02"),
- "C03": ("differential testing of two parsing pipelines on generated strings (formatter output + sugar printer)", "§4 C03"),
+ "C03": ("differential testing of two parsing pipelines on generated strings (formatter output + sugar printer), constructor-pair enumeration and long texts (to 100 000 characters)", "§4 C03"),
  "C04": ("generated-input robustness testing (proptest string generators; libFuzzer campaign in the thorough tier) with a no-panic / returns / error-displayable oracle", "§4 C04"),
  "C05": ("generated-input robustness testing of lexical parse and fold (proptest; libFuzzer in the thorough tier)", "§4 C05"),
- "C06": ("model-based property testing: equality vs canonical-form reference model over construction histories", "§4 C06"),
- "C07": ("property-based testing of the Eq/Hash contract over equal pairs built along different histories", "§4 C07"),
+ "C06": ("model-based property testing: equality vs canonical-form reference model over construction histories, plus a many-threads stress stream", "§4 C06"),
+ "C07": ("property-based testing of the Eq/Hash contract over equal pairs built along different histories, adversarial digest-collision pairs (birthday search) and a many-threads stress stream", "§4 C07"),
  "C08": ("stateful/history property testing: parse_multi vs single parses over generated input sequences", "§4 C08"),
- "C09": ("metamorphic testing: whitespace insertion/removal at token boundaries must not change the parse", "§4 C09"),
+ "C09": ("metamorphic testing: whitespace insertion/removal at token boundaries (all 25 Unicode blanks, runs of up to 100 000) must not change the parse", "§4 C09"),
  "C10": ("property-based testing against independently constructed expected values (bare variants) for surface sugar", "§4 C10"),
  "C11": ("differential testing against a reference PEG recogniser written from the README grammar + hard-coded OpenNARS lexicon", "§4 C11"),
  "C12": ("property-based testing with a well-formedness validity predicate on every accepted input (proptest; libFuzzer in the thorough tier)", "§4 C12"),
@@ -40,7 +40,7 @@ texts = {
  "C17": "Exploration against a reference model of both mutators plus completed constructor × name-pool enumeration.",
 }
 notes = {
- "default": "Trusted base: the harness's own models (canonical form, token printer gated against the formatter, reference predicates), proptest 1.11 shrinking/seeding, rustc/std; /repo is rebuilt from its working tree by cargo's path-dependency fingerprinting on every run. Findings fixed in /repo are listed in KNOWN_FINDINGS.txt as 'fixed:' and kept as regression replays.",
+ "default": "Trusted base: the harness's own models (canonical form, token printer gated against the formatter, reference predicates), proptest 1.11 shrinking/seeding, rustc/std; /repo is rebuilt from its working tree by cargo's path-dependency fingerprinting on every run. Findings fixed in /repo are listed in KNOWN_FINDINGS.txt as 'fixed:' and kept as regression replays. Every check runs in two builds of the crate (optimised; opt-level 0 with debug assertions), parses through format values at reused addresses for part of the inputs, and precedes one case in eight with a battery of unrelated API calls (DESIGN.md §2.1, §3.8, §7).",
 }
 built = sys.argv[1:] if len(sys.argv) > 1 else sorted(claimed)
 checks = []
